@@ -702,6 +702,71 @@ class Inliner:
         return False
 
 
+def destructure_namedtuples(prog: Program) -> List[Tuple[str, str]]:
+    """`r = f(..)` where every return of `f` builds the same NamedTuple and `r` is only used as `r.<field>`:
+    rewrite to `<field names> = f(..)` and plain names, the spelling the rules know from tuple-returning code."""
+    res = Resolver(prog)
+    out: List[Tuple[str, str]] = []
+
+    def nt_fields(cls) -> Optional[List[str]]:
+        if not any(unparse(b).split(".")[-1] == "NamedTuple" for b in cls.node.bases):
+            return None
+        return [b.target.id for b in cls.node.body if isinstance(b, ast.AnnAssign) and isinstance(b.target, ast.Name)]
+
+    def result_fields(g: Func) -> Optional[List[str]]:
+        rets = [r for r in own_nodes(g.node) if isinstance(r, ast.Return) and r.value is not None]
+        fields = None
+        for r in rets:
+            v = r.value
+            if not (isinstance(v, ast.Call) and isinstance(v.func, (ast.Name, ast.Attribute))):
+                return None
+            q = prog.resolve_dotted(g.module, unparse(v.func))
+            cls = prog.classes.get(q) if isinstance(q, str) else None
+            if cls is None:
+                return None
+            f_ = nt_fields(cls)
+            if not f_ or (fields is not None and f_ != fields):
+                return None
+            fields = f_
+        return fields
+
+    for q, f in sorted(prog.functions.items()):
+        if not q.startswith(prog.package + ".") or not isinstance(f.node, ast.FunctionDef):
+            continue
+        nodes = list(own_nodes(f.node))
+        for d in [n for n in nodes if isinstance(n, ast.Assign) and len(n.targets) == 1 and isinstance(n.targets[0], ast.Name) and isinstance(n.value, ast.Call)]:
+            name = d.targets[0].id
+            if sum(1 for n in nodes if isinstance(n, ast.Name) and n.id == name and isinstance(n.ctx, ast.Store)) != 1:
+                continue
+            tgt = res.resolve_callee(d.value, f)
+            if not (tgt and tgt[0] == "func" and tgt[1] in prog.functions):
+                continue
+            fields = result_fields(prog.functions[tgt[1]])
+            if not fields:
+                continue
+            uses = [n for n in nodes if isinstance(n, ast.Name) and n.id == name and isinstance(n.ctx, ast.Load)]
+            if not uses or not all(isinstance(getattr(u, "_parent", None), ast.Attribute) and u._parent.value is u and u._parent.attr in fields and isinstance(u._parent.ctx, ast.Load) for u in uses):
+                continue
+            taken = {n.id for n in nodes if isinstance(n, ast.Name)} | set(f.params)
+            local = {}
+            for fl in fields:
+                nm = fl
+                while nm in taken:
+                    nm = nm + "_"
+                local[fl] = nm
+                taken.add(nm)
+            for u in uses:
+                a = u._parent
+                new = ast.copy_location(ast.Name(id=local[a.attr], ctx=ast.Load()), a)
+                Inliner._replace_child(f.node, a, new)
+            d.targets = [ast.copy_location(ast.Tuple(elts=[ast.Name(id=local[fl], ctx=ast.Store()) for fl in fields], ctx=ast.Store()), d.targets[0])]
+            ast.fix_missing_locations(f.node)
+            set_parents(f.node)
+            nodes = list(own_nodes(f.node))
+            out.append((q, name))
+    return out
+
+
 def anchors_from_sources(paths: List[str]) -> Set[str]:
     """Dotted names starting with the package name that occur as string constants in the checker's own sources."""
     import re
